@@ -476,3 +476,41 @@ variant("alg-from-frame-reordered", "C14", GRAPH, """            if y != height:
             if y < height:
                 edges.append(grid_frame[y * 2 + 1, x * 2])
                 graph.add_edge((y + 1) * (width + 1) + x, y * (width + 1) + x)""")
+
+# ---- C15 ---------------------------------------------------------------------------------------
+SER = "cspuz/problem_serializer.py"
+mutant("ser-hexint-threshold", "C15", SER, "        if 16 <= v < 256:", "        if 16 <= v <= 256:", "RT-LEAF")
+mutant("ser-hexint-minus-width", "C15", SER, """            if idx + 3 > len(data):
+                return None
+            return 3, [_from_base16(data[idx + 1 : idx + 3])]""", """            if idx + 3 > len(data):
+                return None
+            return 2, [_from_base16(data[idx + 1 : idx + 2])]""", "RT-LEAF")
+mutant("ser-spaces-max-run", "C15", SER, "        self._max_consecutive = 35 - self._offset", "        self._max_consecutive = 36 - self._offset", "RT-LEAF")
+mutant("ser-spaces-offset", "C15", SER, "            return 1, [self._space for _ in range(i - self._offset)]", "            return 1, [self._space for _ in range(i - self._offset + 1)]", "RT-LEAF")
+mutant("ser-intspaces-div", "C15", SER, "        num_spaces = n // (self._max_int + 1)", "        num_spaces = n // (self._max_int + 2)", "RT-LEAF")
+mutant("ser-intspaces-limit", "C15", SER, "while idx + num_spaces + 1 < len(data) and num_spaces < self._max_num_spaces:", "while idx + num_spaces + 1 < len(data) and num_spaces <= self._max_num_spaces:", "RT-LEAF")
+mutant("ser-multidigit-order", "C15", SER, "        unpacked.reverse()\n", "", "RT-LEAF")
+mutant("ser-multidigit-partial", "C15", SER, "        return min(len(data) - idx, self._digits), _to_base36(value)", "        return self._digits, _to_base36(value)", "RT-LEAF")
+mutant("ser-decint-digits", "C15", SER, "        return n_digits, [int(data[idx : idx + n_digits])]", "        return n_digits, [int(data[idx : idx + n_digits - 1] or '0')]", "RT-LEAF")
+mutant("ser-dict-prefix", "C15", SER, "                return len(self._after[i]), [self._before[i]]", "                return 1, [self._before[i]]", "RT-LEAF")
+mutant("ser-grid-falsy-zero", "C15", SER, "        height = env.height if self._height is None else self._height\n        width = env.width if self._width is None else self._width\n        seq_combinator = Seq(self._base, height * width)\n\n        d_flat", "        height = self._height or env.height\n        width = self._width or env.width\n        seq_combinator = Seq(self._base, height * width)\n\n        d_flat", "CDC-2", "the original defect")
+mutant("ser-grid-stride", "C15", SER, "                row.append(d2[i * width + j])", "                row.append(d2[i * height + j])", "RT-GRID")
+mutant("ser-seq-truncate", "C15", SER, "        return n_read, [ret[: self._n]]", "        return n_read, [ret[: self._n - 1] + ret[: 1]] if self._n > 2 else (n_read, [ret[: self._n]])", "RT-GRID")
+mutant("ser-rooms-codec-mismatch", "C15", SER, """        combinator = Tupl(
+            Grid(MultiDigit(base=2, digits=5), height=height, width=width - 1),
+            Grid(MultiDigit(base=2, digits=5), height=height - 1, width=width),
+        )
+        res = combinator.deserialize(env, data, idx)""", """        combinator = Tupl(
+            Grid(MultiDigit(base=2, digits=5), height=height - 1, width=width),
+            Grid(MultiDigit(base=2, digits=5), height=height, width=width - 1),
+        )
+        res = combinator.deserialize(env, data, idx)""", "RT-ROOMS")
+mutant("ser-rooms-dfs-guard", "C15", SER, "            if y < height - 1 and not horizontal[y][x]:\n                dfs(y + 1, x, id)", "            if y < height - 1 and not horizontal[y][x] and x > 0:\n                dfs(y + 1, x, id)", "RT-ROOMS")
+mutant("ser-valued-rooms-raw-sort", "C15", SER, "zip(*sorted(zip(*d), key=lambda rv: min(rv[0])))", "zip(*sorted(zip(*d)))", "RT-ROOMS", "the original defect")
+mutant("ser-valued-rooms-count", "C15", SER, "        value_combinator = Seq(self._value_combinator, len(rooms0))", "        value_combinator = Seq(self._value_combinator, max(1, len(rooms0) - 1))", "RT-ROOMS")
+variant("ser-valued-rooms-sorted-cells", "C15", SER, "zip(*sorted(zip(*d), key=lambda rv: min(rv[0])))", "zip(*sorted(zip(*d), key=lambda rv: sorted(rv[0])[0]))")
+variant("ser-hexint-table", "C15", SER, """        prefix = ""
+        if 16 <= v < 256:
+            prefix = "-"
+        elif 256 <= v:
+            prefix = "+\"""", """        prefix = "" if v <= 15 else ("-" if v <= 255 else "+")""")
